@@ -75,8 +75,8 @@ CLAIMED = {
     },
     "C18": {
         "engine": "E5 panicfree",
-        "technique": "static analysis: MIR panic-site inventory of the verifier call graph with machine-checked dominating guards and who-may-construct invariants",
-        "text": "Every MIR panic site reachable from the verifier entry points is discharged by a machine-checked dominating error-returning guard, an invariant of a private-field type whose constructors are enumerated, a frozen reviewed reason, or is a listed known finding; any new site is a violation. Termination is not decided.",
+        "technique": "static analysis: MIR panic-site inventory of the verifier call graph with machine-checked dominating guards and who-may-construct invariants; loop / recursion termination by iterator-type finiteness, counter / pop structure and a recursion measure",
+        "text": "Every MIR panic site reachable from the verifier entry points is discharged by a machine-checked dominating error-returning guard, an invariant of a private-field type whose constructors are enumerated, a frozen reviewed reason, or is a listed known finding; any new site is a violation. Termination (structure): every loop of those functions is driven by next() on a loop-invariant iterator of finite type, or is a listed counter / pop / caller-iterator loop whose structural part is machine-checked; the one recursive cycle carries a strictly increasing, bounded measure; no Iterator method runs on an infinite iterator type.",
         "design_ref": "DESIGN.md 4 (E5), 5 (C18)",
         "note": _NOTE,
     },
@@ -108,6 +108,7 @@ ENGINES = [
     {"name": "E3 guardfx", "path": "rules/guardfx.py", "serves_properties": ["C09", "C11", "C12", "C14"], "kind_free_text": "guard-dominates-effect"},
     {"name": "E4 lockgraph", "path": "rules/lockgraph.py", "serves_properties": ["C15"], "kind_free_text": "lock-order graph and access-lock rules"},
     {"name": "E5 panicfree", "path": "rules/panicfree.py", "serves_properties": ["C18"], "kind_free_text": "panic-site inventory with guard/invariant discharge"},
+    {"name": "E5-T termination", "path": "rules/termination.py", "serves_properties": ["C18"], "kind_free_text": "loop classification (finite iterator types, counter / pop structure), recursion measure"},
     {"name": "E6 vguard", "path": "rules/vguard.py", "serves_properties": ["C08"], "kind_free_text": "acceptance gated by checks"},
     {"name": "E7 dirlock", "path": "rules/dirlock.py", "serves_properties": ["C20"], "kind_free_text": "lock-before-touch dominance, flag constants, lifetime"},
     {"name": "E8 witness", "path": "witness/", "serves_properties": ["C08", "C12", "C15"], "kind_free_text": "compile_fail doctests with compiling twins (cargo +nightly test --doc)"},
